@@ -57,7 +57,7 @@ GateHooks  == {"before_start", "before_spawn", "after_spawn", "after_start"}
 
 NoCtx == [on |-> FALSE, cid |-> "", cmd |-> "", lname |-> "", hasname |-> FALSE, pattern |-> FALSE, pid |-> -1, signum |-> -1,
           children |-> FALSE, recursive |-> FALSE, childpid |-> -1, G |-> -1, nostop |-> FALSE,
-          graceful |-> TRUE, seq |-> FALSE, cast |-> FALSE, waiting |-> FALSE, busy |-> FALSE, file |-> <<>>]
+          graceful |-> TRUE, seq |-> FALSE, cast |-> FALSE, waiting |-> FALSE, busy |-> FALSE, file |-> <<>>, arbchg |-> FALSE]
 NoOp  == [slot |-> "", cmd |-> "", lname |-> "", hasname |-> FALSE, pattern |-> FALSE, mark |-> 0, t0 |-> 0, faulty |-> FALSE,
           gatefail |-> {}, nostop |-> FALSE, graceful |-> TRUE, seq |-> FALSE]
 NoTerm == [open |-> FALSE, sig |-> 0, t0 |-> 0, G |-> 0, killed |-> FALSE, kids |-> {}]
@@ -181,7 +181,8 @@ Upd(g, o, ln, o2) ==
                                children |-> ln.q.children, recursive |-> ln.q.recursive,
                                childpid |-> ln.q.childpid, G |-> ln.q.G, nostop |-> ln.q.nostop,
                                graceful |-> ln.q.graceful, seq |-> ln.q.sequential, cast |-> ln.q.cast, waiting |-> ln.q.waiting,
-                               busy |-> o2.slot # "", file |-> ln.q.file]
+                               busy |-> o2.slot # "", file |-> ln.q.file,
+                               arbchg |-> ("arbchg" \in DOMAIN ln.q /\ ln.q.arbchg)]
                 ELSE IF ln.cb = 0 \/ ln.k = "reqend" THEN NoCtx ELSE g.ctx
       reqs1  == IF isReq
                 THEN Append(g.reqs, [cid |-> ln.x, mid |-> ln.q.mid, cast |-> ln.q.cast, n |-> 0, t0 |-> ln.t,
@@ -258,7 +259,7 @@ Upd(g, o, ln, o2) ==
                         ELSE IF rel /\ o.slot = "arbiter_reload_config" /\ g.rl.on /\ ~g.op.faulty THEN g.rl.file
                         ELSE @,
                !.rl = IF acq /\ o2.slot = "arbiter_reload_config" /\ g.ctx.on /\ g.ctx.cmd = "reloadconfig"
-                      THEN [on |-> TRUE, file |-> g.ctx.file, w0 |-> o2.w]
+                      THEN [on |-> ~g.ctx.arbchg, file |-> g.ctx.file, w0 |-> o2.w]      \* (a changed [circus] section: outside C12)
                       ELSE IF rel /\ o.slot = "arbiter_reload_config" THEN [on |-> FALSE, file |-> <<>>, w0 |-> <<>>]
                       ELSE @,
                !.t = ln.t,
@@ -533,7 +534,10 @@ C09_status(g, ln, o2) ==
       \E i \in WIdx(o2) : o2.w[i].ln = g.ctx.lname /\ o2.w[i].st = ln.r /\ o2.w[i].n \in SeqToSet(o2.wl)
 
 \* ---------------- C10
-C10_wedge(o2, ln) == ~(ln.cb = 0 /\ ln.k \in {"tick", "req", "probe", "end"} /\ o2.fl = 0 /\ o2.slot # "")
+\* nothing in flight, and yet the slot is held - or the arbiter still calls itself restarting although it is alive
+\* and serving (every request would be refused from then on)
+C10_wedge(g, o2, ln) == ~(ln.cb = 0 /\ ln.k \in {"tick", "req", "probe", "end"} /\ o2.fl = 0
+                          /\ (o2.slot # "" \/ (o2.restarting /\ g.closed = {})))
 C10_refuse(g, o, ln, o2) ==
    g.refusing =>
       /\ ln.k \notin (SigKinds \cup {"spawn", "ev", "tick"})
@@ -725,7 +729,7 @@ Clauses(g, o, ln, o2, g2) ==
     C08_done |-> C08_done(g2, o2, ln),
     C09_spawn |-> C09_spawn(g, ln), C09_reap |-> C09_reap(g, o, ln), C09_live |-> C09_live(g2, o2, ln),
     C09_startstop |-> C09_startstop(g, o2, ln), C09_status |-> C09_status(g, ln, o2),
-    C10_wedge |-> C10_wedge(o2, ln), C10_refuse |-> C10_refuse(g, o, ln, o2), C10_accept |-> C10_accept(ln), C10_held |-> C10_held(g, o, ln, o2),
+    C10_wedge |-> C10_wedge(g, o2, ln), C10_refuse |-> C10_refuse(g, o, ln, o2), C10_accept |-> C10_accept(ln), C10_held |-> C10_held(g, o, ln, o2),
     C11_unchanged |-> C11_unchanged(g, ln, o2),
     C13_wid |-> C13_wid(o, o2),
     C14_startgate |-> C14_startgate(g, o, o2), C14_siggate |-> C14_siggate(g, ln),
